@@ -214,6 +214,9 @@ class Builder:
         binds = []
         for p, pk in zip(self.fns[fname], fk[1]):
             binds.append([p, ["lit", g.expr(pk, depth, env)]])
+        if len(binds) >= 2 and self.s.bool(0.15):
+            # one binding left out: that parameter is null inside the invoked function (never a same-named entry of the invoking element)
+            binds.pop(self.s.int(0, len(binds) - 1))
         return ["inv", fname, self.s.shuffle(binds)], fk[2]
 
     def relation(self, env, depth):
